@@ -1,6 +1,6 @@
 (* Props/C11.v — property C11: statements only.  Each theorem is closed by `exact`. *)
 From ChiaV.Base Require Import Bytes.
-From ChiaV.Clvm Require Import Ints Sexp IntsProofs LadderProofs.
+From ChiaV.Clvm Require Import Ints Sexp IntsProofs LadderProofs WidthProofs.
 From ChiaV.Gen Require Import Ladders.
 Open Scope N_scope.
 
@@ -55,3 +55,19 @@ Proof. exact sanitize_uint_neg_iff. Qed.
 Theorem C11_sanitize_positive_overflow : forall bs k,
   sanitize_uint bs k = SPosOverflow <-> exists n, bs = canon_n n /\ 256 ^ N.of_nat k <= n.
 Proof. exact sanitize_uint_pos_iff. Qed.
+
+(* clvm-traits value conversion (mirror of int_encoding.rs), every unsigned width LEN (u8 ... u128, usize):
+   encode_number on to_be_bytes(v) is the canonical form, for ANY big-endian input string ... *)
+Theorem C11_encode_number_unsigned_canonical : forall s, encode_number s false = canon_n (be2n s).
+Proof. exact encode_number_unsigned. Qed.
+
+Theorem C11_encode_number_width : forall LEN v, v < 256 ^ N.of_nat LEN -> encode_number (n2be LEN v) false = canon_n v.
+Proof. exact encode_number_width. Qed.
+
+(* ... and decode_number::<LEN> returns to_be_bytes(v) from the canonical form of every v of the width *)
+Theorem C11_decode_number_unsigned : forall LEN v,
+  v < 256 ^ N.of_nat LEN -> decode_number LEN false (canon_n v) = Some (n2be LEN v).
+Proof. exact decode_number_unsigned. Qed.
+
+(* Signed widths (i8 ... i128): encode/decode are mirrored (Clvm/Ints.v) and compared with the code on every
+   boundary of every width in the `ints` stream; the corresponding theorems are not proved yet. *)
